@@ -77,6 +77,13 @@ class Tr:
             # X = obj.attr
             if isinstance(t, ast.Name):
                 k = self.attr_key(v)
+                # X = getattr(obj, "_attr", obj.attr): the stored flag behind the property `attr`
+                if (k is None and isinstance(v, ast.Call) and getattr(v.func, "id", None) == "getattr"
+                        and len(v.args) == 3 and isinstance(v.args[1], ast.Constant)
+                        and self.attr_key(v.args[2]) is not None and isinstance(v.args[0], ast.Name)
+                        and v.args[0].id in self.roots
+                        and v.args[1].value == "_" + v.args[2].attr and v.args[2].value.id == v.args[0].id):
+                    k = self.attr_key(v.args[2])
                 if k is not None:
                     return f"(.save {self.loc(k)} {self.slot(t.id)})"
                 if (isinstance(v, ast.Call) and getattr(v.func, "id", None) == "get_config_context"):
